@@ -46,7 +46,7 @@ func (f *OrefaFile) Chdir() error {
 		return &fs.PathError{Op: op, Path: f.name, Err: fs.ErrClosed}
 	}
 
-	if !f.nd.mode.IsDir() {
+	if !f.nd.isDir() {
 		err := error(avfs.ErrNotADirectory)
 		if f.vfs.OSType() == avfs.OsWindows {
 			err = avfs.ErrWinDirNameInvalid
@@ -81,7 +81,10 @@ func (f *OrefaFile) Chmod(mode fs.FileMode) error {
 		return &fs.PathError{Op: op, Path: f.name, Err: fs.ErrClosed}
 	}
 
+	verifYield(&f.nd.mu, true)
+	f.nd.mu.Lock()
 	f.nd.setMode(mode)
+	f.nd.mu.Unlock()
 
 	return nil
 }
@@ -114,7 +117,10 @@ func (f *OrefaFile) Chown(uid, gid int) error {
 		return &fs.PathError{Op: op, Path: f.name, Err: avfs.ErrWinNotSupported}
 	}
 
+	verifYield(&f.nd.mu, true)
+	f.nd.mu.Lock()
 	f.nd.setOwner(uid, gid)
+	f.nd.mu.Unlock()
 
 	return nil
 }
@@ -170,9 +176,9 @@ func (f *OrefaFile) Read(b []byte) (n int, err error) {
 		return 0, fs.ErrInvalid
 	}
 
-	verifYield(&f.mu, false)
-	f.mu.RLock()
-	defer f.mu.RUnlock()
+	verifYield(&f.mu, true)
+	f.mu.Lock()
+	defer f.mu.Unlock()
 
 	if f.name == "" {
 		return 0, fs.ErrInvalid
@@ -187,7 +193,7 @@ func (f *OrefaFile) Read(b []byte) (n int, err error) {
 	}
 
 	nd := f.nd
-	if nd.mode.IsDir() {
+	if nd.isDir() {
 		err = avfs.ErrIsADirectory
 		if f.vfs.OSType() == avfs.OsWindows {
 			err = avfs.ErrWinIncorrectFunc
@@ -248,7 +254,7 @@ func (f *OrefaFile) ReadAt(b []byte, off int64) (n int, err error) {
 	}
 
 	nd := f.nd
-	if nd.mode.IsDir() {
+	if nd.isDir() {
 		err = avfs.ErrIsADirectory
 		if f.vfs.OSType() == avfs.OsWindows {
 			err = avfs.ErrWinIncorrectFunc
@@ -292,9 +298,9 @@ func (f *OrefaFile) ReadDir(n int) ([]fs.DirEntry, error) {
 		return nil, fs.ErrInvalid
 	}
 
-	verifYield(&f.mu, false)
-	f.mu.RLock()
-	defer f.mu.RUnlock()
+	verifYield(&f.mu, true)
+	f.mu.Lock()
+	defer f.mu.Unlock()
 
 	if f.name == "" {
 		return nil, fs.ErrInvalid
@@ -315,7 +321,7 @@ func (f *OrefaFile) ReadDir(n int) ([]fs.DirEntry, error) {
 	}
 
 	nd := f.nd
-	if !nd.mode.IsDir() {
+	if !nd.isDir() {
 		return nil, &fs.PathError{Op: op, Path: f.name, Err: f.vfs.err.NotADirectory}
 	}
 
@@ -377,9 +383,9 @@ func (f *OrefaFile) Readdirnames(n int) (names []string, err error) {
 		return nil, fs.ErrInvalid
 	}
 
-	verifYield(&f.mu, false)
-	f.mu.RLock()
-	defer f.mu.RUnlock()
+	verifYield(&f.mu, true)
+	f.mu.Lock()
+	defer f.mu.Unlock()
 
 	if f.name == "" {
 		return nil, fs.ErrInvalid
@@ -400,7 +406,7 @@ func (f *OrefaFile) Readdirnames(n int) (names []string, err error) {
 	}
 
 	nd := f.nd
-	if !nd.mode.IsDir() {
+	if !nd.isDir() {
 		return nil, &fs.PathError{Op: op, Path: f.name, Err: f.vfs.err.NotADirectory}
 	}
 
@@ -470,7 +476,7 @@ func (f *OrefaFile) Seek(offset int64, whence int) (ret int64, err error) {
 	}
 
 	nd := f.nd
-	if nd.mode.IsDir() {
+	if nd.isDir() {
 		return 0, nil
 	}
 
@@ -592,7 +598,7 @@ func (f *OrefaFile) Truncate(size int64) error {
 	}
 
 	nd := f.nd
-	if nd.mode.IsDir() {
+	if nd.isDir() {
 		err := error(avfs.ErrInvalidArgument)
 		if f.vfs.OSType() == avfs.OsWindows {
 			err = avfs.ErrWinAccessDenied
@@ -635,9 +641,9 @@ func (f *OrefaFile) Write(b []byte) (n int, err error) {
 		return 0, fs.ErrInvalid
 	}
 
-	verifYield(&f.mu, false)
-	f.mu.RLock()
-	defer f.mu.RUnlock()
+	verifYield(&f.mu, true)
+	f.mu.Lock()
+	defer f.mu.Unlock()
 
 	if f.name == "" {
 		return 0, fs.ErrInvalid
@@ -648,7 +654,7 @@ func (f *OrefaFile) Write(b []byte) (n int, err error) {
 	}
 
 	nd := f.nd
-	if nd.mode.IsDir() {
+	if nd.isDir() {
 		err = avfs.ErrBadFileDesc
 		if f.vfs.OSType() == avfs.OsWindows {
 			err = avfs.ErrWinAccessDenied
@@ -725,7 +731,7 @@ func (f *OrefaFile) WriteAt(b []byte, off int64) (n int, err error) {
 	}
 
 	nd := f.nd
-	if nd.mode.IsDir() {
+	if nd.isDir() {
 		err = avfs.ErrBadFileDesc
 		if f.vfs.OSType() == avfs.OsWindows {
 			err = avfs.ErrWinAccessDenied
